@@ -256,7 +256,8 @@ impl Transaction {
                 if let Some(x) = &self.hash_cache.hash_sequence {
                     return x.to_bytes();
                 }
-                let input_sequences: Vec<u8> = self.inputs.iter().flat_map(|x| x.get_sequence_as_bytes()).collect();
+                // hashSequence commits to every nSequence as it is serialised in the transaction: 4 bytes little-endian
+                let input_sequences: Vec<u8> = self.inputs.iter().flat_map(|x| x.get_sequence().to_le_bytes()).collect();
                 let hash = Hash::sha_256d(&input_sequences);
                 self.hash_cache.hash_sequence = Some(hash.clone());
                 hash.to_bytes()
